@@ -166,16 +166,18 @@ Theorem C01_mol_to_graph : forall m : rmol,
 Proof. exact mol_to_graph_full. Qed.
 Print Assumptions C01_mol_to_graph.
 
-(** 12. implicit_hydrogen(graph, preserve): a hydrogen atom stays iff its atom_map is preserved; every other atom stays
-        with hcount + (hydrogen neighbours) - (preserved hydrogen neighbours), i.e. the decrement is once per preserved
-        hydrogen bonded to it; the bonds are exactly the bonds between remaining atoms; and the hydrogen total (hcount +
-        hydrogen neighbours) of every non-hydrogen atom is unchanged, all its other labels too *)
+(** 12. implicit_hydrogen(graph, preserve), AS REPAIRED by /repo commit 3ba7a77 (before it every non-preserved hydrogen was
+        deleted, also a lone H / H+ / H- that is folded into no atom's hcount: its_to_rsmi lost the atom and its charge,
+        known_findings.d/C01.json): a hydrogen atom stays iff its atom_map is preserved OR it has no non-hydrogen neighbour
+        ([has_heavy]); every other atom stays with hcount + (hydrogen neighbours) - (preserved hydrogen neighbours), i.e. the
+        decrement is once per preserved hydrogen bonded to it; the bonds are exactly the bonds between remaining atoms; and the
+        hydrogen total (hcount + hydrogen neighbours) of every non-hydrogen atom is unchanged, all its other labels too *)
 Theorem C01_implicit_hydrogen : forall (g : mgraph) (pres : list Z), wf g ->
   let g' := implicit_hydrogen g pres in
   (forall n, label g' n =
      match label g n with
      | None => None
-     | Some a => if is_H a then (if mem n (preserved g pres) then Some a else None)
+     | Some a => if is_H a then (if mem n (preserved g pres) || negb (has_heavy g n) then Some a else None)
                  else Some (set_hc a (g_hc a + count_h g n - count_pres g pres n))
      end) /\
   (forall u v, adj g' u v = if negb (ih_removed g pres u) && negb (ih_removed g pres v) then adj g u v else None) /\
